@@ -232,6 +232,17 @@ constexpr auto memmove(void* dest, void const* src, SizeT n) -> CharT*
 }
 
 template <typename CharT, typename SizeT>
+[[nodiscard]] constexpr auto memcmp(CharT const* lhs, CharT const* rhs, SizeT count) -> int
+{
+    for (SizeT i{0}; i != count; ++i) {
+        if (lhs[i] != rhs[i]) {
+            return lhs[i] < rhs[i] ? -1 : 1;
+        }
+    }
+    return 0;
+}
+
+template <typename CharT, typename SizeT>
 constexpr auto memchr(CharT* ptr, CharT ch, SizeT n) -> CharT*
 {
     for (SizeT i{0}; i != n; ++i) {
